@@ -53,6 +53,10 @@ def case_C14(seed):
         viol.append(('C14:point-to-segment-projection', f"projection {pi} is {G.gc_distance(pi, rpi)} m from the reference {rpi}", dict(info, got=(dist, pi, ti), ref=(rd, rpi, rti))))
     elif abs(ti - rti) * L > tol_d + 1e-6 * L:
         viol.append(('C14:point-to-segment-relative-position', f"relative position {ti} vs reference {rti}", dict(info, got=(dist, pi, ti), ref=(rd, rpi, rti))))
+    # --- project() is the projection part of distance_point_to_segment (same clamping to the segment)
+    ppi, pti = dl.project(s1, s2, p)
+    if not viol and (G.gc_distance(ppi, pi) > 1e-6 or abs(pti - ti) > 1e-9):
+        viol.append(('C14:project-differs-from-point-to-segment', f"project(s1, s2, p) = {(ppi, pti)}, distance_point_to_segment gives {(pi, ti)}", info))
     # --- zero-length segment: the segment is its end point (in degrees), distance is the great-circle distance to it
     dz, piz, tiz = dl.distance_point_to_segment(p, s1, s1)
     if not viol and (not close(dz, G.gc_distance(p, s1), 1e-9, 1e-6) or G.gc_distance(piz, s1) > 1e-6 or tiz not in (0, 0.0)):
@@ -227,8 +231,14 @@ def case_C15(seed):
         case['cfg']['obs_noise'] = rnd.choice([0.09, 0.2])
     origin = (lat0, lon0)
 
+    if seed % 9 == 4:
+        lon0 = rnd.choice([179.9995, -179.9998, 180.0])      # 'any longitude': the map straddles the antimeridian
+        origin = (lat0, lon0)
+
     def to_ll(p):
-        return (lat0 + math.degrees(p[0] * s / G.R), lon0 + math.degrees(p[1] * s / (G.R * math.cos(math.radians(lat0)))))
+        lo = lon0 + math.degrees(p[1] * s / (G.R * math.cos(math.radians(lat0))))
+        lo = lo - 360.0 if lo > 180.0 else (lo + 360.0 if lo <= -180.0 else lo)       # longitudes are given in (-180, 180]
+        return (lat0 + math.degrees(p[0] * s / G.R), lo)
     g_ll = {k: (to_ll(v[0]), v[1]) for k, v in case['graph'].items()}
     tr_ll = [to_ll(p) for p in case['trace']]
     g_xy = {k: (G.local_project(v[0], origin), v[1]) for k, v in g_ll.items()}
